@@ -133,8 +133,37 @@ func (vc *VC) evalCall1(s *State, call *ast.CallExpr, want int) []*Term {
 		vc.unsupported(call, "call of non-function")
 	}
 	args := vc.evalArgs(s, call, sig)
-	_ = args
-	return vc.havocCall(s, call, "dynamic call "+exprStr(call.Fun), sig)
+	vc.recordCall(s, exprStr(call.Fun), sig, args, nil)
+	res := vc.havocCall(s, call, "dynamic call "+exprStr(call.Fun), sig)
+	vc.recordCall(s, exprStr(call.Fun), sig, nil, res)
+	return res
+}
+
+// recordCall keeps a ghost record of the most recent call of an opaque callee (a function value or an interface
+// method without contract), under the callee expression's source text: number of calls so far, the arguments and
+// the results of the last one. Spec builtins ncalls("f"), callarg("f", i), callret("f", i) read it.
+func (vc *VC) recordCall(s *State, name string, sig *types.Signature, args, res []*Term) {
+	k := "$call." + name
+	if res == nil {
+		// before the call: count it, keep the arguments; the results of a call that panics are unconstrained
+		s.ghost[k+".n"] = Add(ghostInt(s, k+".n"), IntLit(1))
+		vc.ghostTypes[k+".n"] = types.Typ[types.Int]
+		for i := 0; i < sig.Results().Len(); i++ {
+			t := sig.Results().At(i).Type()
+			s.ghost[fmt.Sprintf("%s.ret%d", k, i)] = Fresh("noret", sortOf(t))
+			vc.ghostTypes[fmt.Sprintf("%s.ret%d", k, i)] = t
+		}
+	}
+	for i, a := range args {
+		if i < sig.Params().Len() {
+			s.ghost[fmt.Sprintf("%s.arg%d", k, i)] = a
+			vc.ghostTypes[fmt.Sprintf("%s.arg%d", k, i)] = sig.Params().At(i).Type()
+		}
+	}
+	for i, r := range res {
+		s.ghost[fmt.Sprintf("%s.ret%d", k, i)] = r
+		vc.ghostTypes[fmt.Sprintf("%s.ret%d", k, i)] = sig.Results().At(i).Type()
+	}
 }
 
 func (vc *VC) fieldFuncKey(sel *types.Selection, fld *types.Var) string {
@@ -579,7 +608,10 @@ func (vc *VC) callDynamic(s *State, call *ast.CallExpr, m *types.Func, recv *Ter
 	if key == "error.Error" {
 		return []*Term{App("error.Error", SStr, recv)}
 	}
-	return vc.havocCall(s, call, "interface method call "+exprStr(call.Fun), sig)
+	vc.recordCall(s, exprStr(call.Fun), sig, args, nil)
+	res := vc.havocCall(s, call, "interface method call "+exprStr(call.Fun), sig)
+	vc.recordCall(s, exprStr(call.Fun), sig, nil, res)
+	return res
 }
 
 func ifaceNameOf(m *types.Func) string {
